@@ -7,8 +7,9 @@ PROPS = {
              "6 key types, N in {1,2,3,4,7,100}, both sync modes); distinct = distinct case bodies with >= 2 mutating ops",
         assumptions=["K: Ord agrees with key_cmp (checked by the iteration-order correspondence)"]),
     "C02": dict(
-        suites=["seq"], tags={"reopen_same", "open_clean"}, corr={"ret_open", "state"},
-        rule="histories with close/open and checkpoint at random positions; state before close vs after open",
+        suites=["seq", "conc"], tags={"reopen_same", "open_clean", "restart_conc"}, corr={"ret_open", "state"},
+        rule="histories with close/open and checkpoint at random positions; state before close vs after open; after every concurrent program of K6 "
+             "(forced and model-free schedules, no injected obstacle) the handle is dropped and the directory reopened: keys, sizes, reference counts and statistics unchanged",
         assumptions=["stats.index.serialized_size_bytes is specified as the length of the index file, not compared across restarts"]),
     "C03": dict(
         suites=["crash"], tags={"recover_open", "recover_state", "usable"}, crash_corr={"image", "recovery"},
